@@ -239,15 +239,20 @@ def heapUp (top : Bool) (h : Array (α × V)) : Nat → Nat → Array (α × V)
         else heapUp top ((h.set! i x).set! j y) fuel i
       | _, _ => h
 
+/-- the child of `i` that `down` compares with: the right one if it is in the heap and less than
+the left one -/
+def smallerChild (top : Bool) (h : Array (α × V)) (n i : Nat) : Nat :=
+  match h[2 * i + 1 + 1]?, h[2 * i + 1]? with
+  | some b, some a => if 2 * i + 1 + 1 < n && heapLess top b.2 a.2 then 2 * i + 1 + 1 else 2 * i + 1
+  | _, _ => 2 * i + 1
+
 def heapDown (top : Bool) (h : Array (α × V)) (n : Nat) : Nat → Nat → Array (α × V)
   | 0, _ => h
   | fuel + 1, i =>
     let j1 := 2 * i + 1
     if j1 ≥ n then h
     else
-      let j := match h[j1 + 1]?, h[j1]? with
-        | some b, some a => if j1 + 1 < n && heapLess top b.2 a.2 then j1 + 1 else j1
-        | _, _ => j1
+      let j := smallerChild top h n i
       match h[j]?, h[i]? with
       | some x, some y =>
         if !heapLess top x.2 y.2 then h
